@@ -139,7 +139,15 @@ func (e *Exec) switchTo(me, next int) {
 	}
 }
 
+// Observer, when set, sees every function entry of a controlled execution before the scheduler does (trace recorders
+// that need the deterministic order of a cooperative execution: C19 on a tree whose Multiply starts goroutines).
+var Observer func(id int)
+
 func (e *Exec) hook(id int) {
+	if o := Observer; o != nil {
+		o(id)
+	}
+
 	if e.deadlock {
 		return
 	}
